@@ -5,6 +5,7 @@ package main
 import (
 	"fmt"
 	"path/filepath"
+	"sort"
 	"strings"
 	"time"
 
@@ -12,6 +13,8 @@ import (
 )
 
 func hasUnbound(t *G) bool { return !ground(t) }
+
+var c08Pool = []string{"", "a", "ab", "abc", "b", "f", "fo", "foo", "+", "++", "[]", "A", "é", "éa"}
 
 func runC08(outDir string, seed int64, tier string) {
 	start := time.Now()
@@ -40,25 +43,65 @@ func runC08(outDir string, seed int64, tier string) {
 		}
 		return sign[out.Answers[0]["O"].S], q, true
 	}
+	poolRes := map[[2]string]int{}
+	poolTransitivity := func() {
+		// transitivity over the whole pool, from the matrix of observed comparisons
+		var keys []string
+		ks := map[string]bool{}
+		for k := range poolRes {
+			if !ks[k[0]] {
+				ks[k[0]] = true
+				keys = append(keys, k[0])
+			}
+		}
+		sort.Strings(keys)
+		for _, x := range keys {
+			for _, y := range keys {
+				for _, z := range keys {
+					xy, ok1 := poolRes[[2]string{x, y}]
+					yz, ok2 := poolRes[[2]string{y, z}]
+					xz, ok3 := poolRes[[2]string{x, z}]
+					if ok1 && ok2 && ok3 && xy < 0 && yz < 0 && xz >= 0 {
+						sum.Failures = append(sum.Failures, failure{ID: id, Class: "order:not-transitive", Input: map[string]interface{}{"text": fmt.Sprintf("a=%s b=%s c=%s", x, y, z)},
+							Observed: fmt.Sprintf("ab=%d bc=%d ac=%d", xy, yz, xz), Expected: "a<b, b<c implies a<c"})
+					}
+				}
+			}
+		}
+	}
 	for i := 0; i < n; i++ {
 		g := &tgen{r: r.split(), nvars: 2}
 		// ground terms mostly: laws relating several calls are asserted only where no two distinct
 		// unbound variables are compared
 		allowVars := g.r.coin(0.15)
 		a, b, c := g.term(3, allowVars), g.term(3, allowVars), g.term(3, allowVars)
-		if g.r.coin(0.4) {
+		pooled := false
+		if np := len(c08Pool); i < 2*np*np {
+			// every pair of names of a pool with shared prefixes, the empty atom, symbol and multi-byte names:
+			// first as atoms, then as functor names
+			k := i % (np * np)
+			mk := func(s string) *G {
+				if i >= np*np {
+					return gc(s, ga("z"))
+				}
+				return ga(s)
+			}
+			a, b, c = mk(c08Pool[k/np]), mk(c08Pool[k%np]), mk(c08Pool[(k*5+3)%np])
+			pooled = true
+		}
+		if !pooled && g.r.coin(0.4) {
 			b = mutateTerm(g, a)
 			if !allowVars && !ground(b) {
 				b = a
 			}
 		}
-		if g.r.coin(0.3) {
+		if !pooled && g.r.coin(0.3) {
 			c = mutateTerm(g, b)
 			if !allowVars && !ground(c) {
 				c = b
 			}
 		}
-		if s, ok := isCharList(a); ok && g.r.coin(0.5) { // the code list of the same (or a neighbouring) text
+		if s, ok := isCharList(a); !pooled && ok && g.r.coin(0.5) { // the code list of the same (or a neighbouring) text
 			var es []*G
 			for _, ch := range s {
 				es = append(es, gi(int64(ch)))
@@ -83,6 +126,9 @@ func runC08(outDir string, seed int64, tier string) {
 			continue
 		}
 		sum.count(fmt.Sprintf("compare:%d", ab))
+		if pooled {
+			poolRes[[2]string{a.text(), b.text()}] = ab
+		}
 		if ground(a) && ground(b) { // the relative order of distinct unbound variables is implementation dependent
 			ocases = append(ocases, fmt.Sprintf("(%d, %s, %s, %s)", id, a.coqT(), b.coqT(), coqZ(int64(ab))))
 		}
@@ -112,13 +158,13 @@ func runC08(outDir string, seed int64, tier string) {
 			// '=' exactly for identical terms
 			g.setup, g.nbuild = nil, 0
 			ta, tb := g.render(a, true), g.render(b, true)
-			o := runQuery(p, 1, nil, strings.Join(append(g.setup, ta+" == "+tb), ", ")+" .")
+			o := runQuery(p, 1, nil, strings.Join(append(g.setup, "("+ta+") == ("+tb+")"), ", ")+" .")
 			if (len(o.Answers) == 1) != (ab == 0) {
 				addFail("order:==-disagrees-with-compare", desc, fmt.Sprint(len(o.Answers) == 1), fmt.Sprint(ab == 0))
 			}
 			// the operators of bootstrap.pl
 			for op, want := range map[string]bool{"@<": ab < 0, "@>": ab > 0, "@=<": ab <= 0, "@>=": ab >= 0, `\==`: ab != 0} {
-				o := runQuery(p, 1, nil, a.text()+" "+op+" "+b.text()+" .")
+				o := runQuery(p, 1, nil, "("+a.text()+") "+op+" ("+b.text()+") .") // operands in brackets: an atom that is an operator cannot stand bare
 				if (len(o.Answers) == 1) != want {
 					addFail("order:operator-"+op+"-disagrees-with-compare", desc, fmt.Sprint(len(o.Answers) == 1), fmt.Sprint(want))
 				}
@@ -236,5 +282,6 @@ func runC08(outDir string, seed int64, tier string) {
 		sum.CaseFiles = append(sum.CaseFiles, name)
 		nf++
 	}
+	poolTransitivity()
 	sum.write(outDir, start)
 }
